@@ -137,6 +137,11 @@ class C15(Prop):
             'thorough adds (signal x handler) x rejected call x (signal x handler) x 6 kinds of next run. 13 scenarios on the REAL Twisted '
             'reactor (feature reactor:real) come first in the thorough enumeration, 5 of them are part of every quick run')
     assumptions = [
+        'translator tie: harness/pyspinner2lean.py re-reads Spinner.run (ordered skeleton incl. the per-run token and the finally '
+        'ladder), run_function, _got_success/_got_failure/_stop_reactor/_timed_out/_fake_stop/_cancel_timeout, the arms of _get_result, '
+        '_clean, _OBLIGATORY_REACTOR_ITERATIONS and (as shapes) _save_signals/_restore_signals/not_reentrant/trap_unhandled_errors as data; '
+        'TTV.SpinnerSkel gives the data its meaning, C15_src_* prove the model is that interpretation (trusted: the recogniser, and that '
+        'the interpreter reads the recognised statement forms as Python does); unrecognised statements become .unknown',
         '_OBLIGATORY_REACTOR_ITERATIONS is a per-run input (0-3). `spawn` actions (a delayed call that schedules another one - chains up to '
         'depth 4, also registering selectables) are generated, and accepted by the decoder, only in runs whose f returns / raises '
         'synchronously and only as delayed calls: the loop of reactor.run() then does not iterate, so such a call can only be run by '
